@@ -27,6 +27,18 @@ impl<'doc> Visit<'doc> for Rec {
         self.ev.push(("inline_table", addr(node), String::new()));
         toml_edit::visit::visit_inline_table(self, node);
     }
+    fn visit_table_like(&mut self, node: &'doc dyn toml_edit::TableLike) {
+        self.ev.push(("table_like", 0, String::new()));
+        toml_edit::visit::visit_table_like(self, node);
+    }
+    fn visit_item(&mut self, node: &'doc Item) {
+        self.ev.push(("item", 0, String::new()));
+        toml_edit::visit::visit_item(self, node);
+    }
+    fn visit_value(&mut self, node: &'doc Value) {
+        self.ev.push(("value", 0, String::new()));
+        toml_edit::visit::visit_value(self, node);
+    }
     fn visit_table_like_kv(&mut self, key: &'doc str, node: &'doc Item) {
         self.ev.push(("kv", addr(node), key.to_string()));
         toml_edit::visit::visit_table_like_kv(self, key, node);
@@ -69,6 +81,18 @@ impl VisitMut for RecMut {
         self.ev.push(("inline_table", addr(node), String::new()));
         toml_edit::visit_mut::visit_inline_table_mut(self, node);
     }
+    fn visit_table_like_mut(&mut self, node: &mut dyn toml_edit::TableLike) {
+        self.ev.push(("table_like", 0, String::new()));
+        toml_edit::visit_mut::visit_table_like_mut(self, node);
+    }
+    fn visit_item_mut(&mut self, node: &mut Item) {
+        self.ev.push(("item", 0, String::new()));
+        toml_edit::visit_mut::visit_item_mut(self, node);
+    }
+    fn visit_value_mut(&mut self, node: &mut Value) {
+        self.ev.push(("value", 0, String::new()));
+        toml_edit::visit_mut::visit_value_mut(self, node);
+    }
     fn visit_table_like_kv_mut(&mut self, key: KeyMut<'_>, node: &mut Item) {
         self.ev.push(("kv", addr(node), key.get().to_string()));
         toml_edit::visit_mut::visit_table_like_kv_mut(self, key, node);
@@ -101,12 +125,15 @@ impl VisitMut for RecMut {
 // the independent walk: public accessors only, no visitor code
 fn walk_table(t: &Table, out: &mut Vec<Ev>) {
     out.push(("table", addr(t), String::new()));
+    // the hook shared by tables and inline tables: once per table-like node, empty or not
+    out.push(("table_like", 0, String::new()));
     for (k, item) in t.iter() {
         out.push(("kv", addr(item), k.to_string()));
         walk_item(item, out);
     }
 }
 fn walk_item(item: &Item, out: &mut Vec<Ev>) {
+    out.push(("item", 0, String::new()));
     match item {
         Item::None => {}
         Item::Value(v) => walk_value(v, out),
@@ -120,6 +147,7 @@ fn walk_item(item: &Item, out: &mut Vec<Ev>) {
     }
 }
 fn walk_value(v: &Value, out: &mut Vec<Ev>) {
+    out.push(("value", 0, String::new()));
     match v {
         Value::String(f) => out.push(("string", addr(f), f.value().clone())),
         Value::Integer(f) => out.push(("integer", addr(f), f.value().to_string())),
@@ -134,9 +162,11 @@ fn walk_value(v: &Value, out: &mut Vec<Ev>) {
         }
         Value::InlineTable(t) => {
             out.push(("inline_table", addr(t), String::new()));
+            out.push(("table_like", 0, String::new()));
             for (k, x) in t.iter() {
                 // identity of the key/value pair = the value it holds
                 out.push(("kv", addr(x), k.to_string()));
+                out.push(("item", 0, String::new()));
                 walk_value(x, out);
             }
         }
@@ -150,7 +180,7 @@ fn same(a: &[Ev], b: &[Ev]) -> Result<(), String> {
         return Err(format!("{} callbacks vs {} nodes", a.len(), b.len()));
     }
     for (i, (x, y)) in a.iter().zip(b.iter()).enumerate() {
-        let ok = x.0 == y.0 && x.2 == y.2 && (x.0 == "kv" || x.1 == y.1);
+        let ok = x.0 == y.0 && x.2 == y.2 && (x.0 == "kv" || x.1 == y.1 || x.1 == 0 || y.1 == 0);
         if !ok {
             return Err(format!("position {}: visitor saw {:?} {:?}, the walk finds {:?} {:?}", i, x.0, x.2, y.0, y.2));
         }
@@ -279,22 +309,24 @@ pub fn c20_eval(bytes: &[u8], uni: &'static str, acc: &mut Acc) {
     }
 }
 
+const NOPS: usize = 8;
+
 /// API-built documents: placeholders left by mutable indexing, items converted between kinds, nested containers
 fn api_docs(rep: &mut Report) {
     let t0 = std::time::Instant::now();
-    let bases = ["", "a = 1\n", "[t]\nx = [1, {y = 2}]\n[[u]]\nz.w = 3\n[[u]]\n", "a = {b = {c = [1, [2, {d = 3}]]}}\n"];
+    let bases = ["", "a = 1\n", "[t]\nx = [1, {y = 2}]\n[[u]]\nz.w = 3\n[[u]]\n", "a = {b = {c = [1, [2, {d = 3}]]}}\n", "[[u]]\ni = 1\n[[u]]\ni = 2\n[[u]]\ni = 3\n[t]\nx = [1, 2, 3]\n[n]\n"];
     let keys = ["a", "t", "u", "n"];
     let mut acc = Acc::default();
     let mut total = 0u64;
     for b in bases {
-        for ops in 0..(5usize.pow(3)) {
+        for ops in 0..(NOPS.pow(3)) {
             let mut doc: DocumentMut = b.parse().unwrap();
             let mut desc = Vec::new();
             let mut o = ops;
             for step in 0..3 {
                 let k = keys[(ops + step) % keys.len()];
-                let which = o % 5;
-                o /= 5;
+                let which = o % NOPS;
+                o /= NOPS;
                 let r = guarded(|| match which {
                     0 => {}
                     1 => {
@@ -311,11 +343,31 @@ fn api_docs(rep: &mut Report) {
                         a.push(t);
                         doc.insert(k, Item::ArrayOfTables(a));
                     }
-                    _ => {
+                    4 => {
                         let it = doc.as_table_mut().remove(k);
                         if let Some(mut it) = it {
                             it.make_value();
                             doc.insert("moved", it);
+                        }
+                    }
+                    5 => {
+                        // vacate the FIRST slot of an array of tables / array (the slot stays, its content is gone)
+                        if doc.get(k).map(|i| i.as_array_of_tables().map(|a| a.len() > 0).unwrap_or(false) || i.as_array().map(|a| a.len() > 0).unwrap_or(false)).unwrap_or(false) {
+                            let _ = std::mem::take(&mut doc[k][0]);
+                        } else if doc.get("t").and_then(|t| t.get("x")).and_then(|x| x.as_array()).map(|a| a.len() > 0).unwrap_or(false) {
+                            let _ = std::mem::take(&mut doc["t"]["x"][0]);
+                        }
+                    }
+                    6 => {
+                        // empty containers: a table, an inline table and an array of tables without elements
+                        doc.insert(k, Item::Table(Table::new()));
+                        doc["e1"] = toml_edit::value(InlineTable::new());
+                        doc["e2"] = Item::ArrayOfTables(ArrayOfTables::new());
+                    }
+                    _ => {
+                        // vacate a table entry in place
+                        if doc.contains_key(k) {
+                            let _ = std::mem::take(&mut doc[k]);
                         }
                     }
                 });
@@ -336,7 +388,7 @@ fn api_docs(rep: &mut Report) {
             }
         }
     }
-    rep.absorb("U-api", "4 base documents x every 3-step history over {noop, auto-vivify, assign, insert array of tables, remove+make_value+reinsert}", total, true, t0, acc);
+    rep.absorb("U-api", "5 base documents x every 3-step history over {noop, auto-vivify, assign, insert array of tables, remove+make_value+reinsert, vacate first array / array-of-tables slot, insert empty containers, vacate table entry}", total, true, t0, acc);
 }
 
 pub fn c20(tier: Tier) -> i32 {
